@@ -24,7 +24,7 @@ type c32Case struct {
 }
 
 const (
-	stalledPct   = 20 // share of the generated stress scenarios that carry the 'stalled-reader' kind
+	stalledPct   = 12 // share of the generated stress scenarios that carry the 'stalled-reader' kind
 	stallWindowC = 20 * time.Second
 	childLimit   = 150 * time.Second
 )
